@@ -345,9 +345,7 @@ def handle : Handler := fun op inp impl => do
     let one (cl : Cluster) (o : Out VerdictOut) : List (String × Bool) :=
       match o with
       | .val o => [("C11.sts_ready_means_live_ready_pods", verdictSound rel batch d cl o),
-                   ("C11.sts_updated_ready_exact", (match d, o.counters with
-                                                      | some w, some c => countersExact w cl c
-                                                      | _, _ => true)),
+                   ("C11.sts_updated_ready_exact", countersSound d cl o),
                    ("C07.sts_ready_when_pods_ready", verdictComplete rel batch d cl f o)]
       | .panic => []
     let crash (o : Out VerdictOut) : List (String × Bool) :=
